@@ -120,9 +120,8 @@ func runC12(c *Ctx) {
 			reach, trail := PrunedCanReach(fn, rm.Instr, []Assume{{regexpQuote("(" + T + " != nil)"), true}, {regexpQuote("(" + T + " == nil)"), false}}, isDC, nil)
 			c.Ob("C12-D2", "sio.Namespace.add/no-admission-after-rejection", rm.Pos(), !reach, "doConnect reachable although runMiddlewares returned an error: "+trailString(p, trail))
 			// a rejected add returns the error and no socket
-			for _, b := range fn.Blocks {
-				ret, ok := b.Instrs[len(b.Instrs)-1].(*ssa.Return)
-				if !ok || len(ret.Results) != 2 {
+			for _, ret := range effReturns(fn) {
+				if len(ret.Results) != 2 {
 					continue
 				}
 				if r, _ := PrunedCanReach(fn, rm.Instr, []Assume{{regexpQuote("(" + T + " != nil)"), true}}, func(in ssa.Instruction) bool { return in == ret }, nil); r {
